@@ -164,6 +164,21 @@ CHECKS = {
         note="Repetitions sample Go's map orders (each fresh map draws a new order), they do not enumerate them; "
              "12-field objects make an accidental match of all repetitions negligible (1/12! per print).",
         design="5/C14"),
+    "C19": dict(
+        technique="TLA+ source semantics (HmsSem) and module-linking spec (HmsLink) as the meaning that must survive; every "
+                  "generated program and module graph is printed from its parsed and analysed form by the real printers, "
+                  "re-parsed / re-analysed, optimised, and replayed on both backends",
+        text="For every program of the families (printer forms: string escapes, non-identifier and keyword keys, nested value "
+             "blocks, operator nesting, statements, type forms, globals; typing forms, templates, captures, lambdas, closures, "
+             "singletons, control nestings, operators, random programs), hand-written form files (impl blocks, pub items, "
+             "any-objects, spawn) and the repository's .hms files: parse -> print -> parse -> print and analyse -> print -> "
+             "analyse -> print must be fixed points after one round and keep acceptance; original, both printed forms and the "
+             "optimiser's output must behave identically on the VM (original and printed also on the interpreter), the original "
+             "as HmsSem prescribes. Accepted HmsLink graphs are printed module by module and must still link and print what "
+             "HmsLink specifies.",
+        note="Positions inside messages are masked when two behaviours are compared (they move when text is re-printed). The "
+             "optimiser only drops statements after a diverging one at function level; deeper rewrites do not exist yet.",
+        design="5/C19"),
     "C09": dict(
         technique="TLA+ bytecode-machine spec (HmsVM: one rule per opcode, LimitOvershoot / LoopNeutral / "
                   "ReturnBalanced / NoUnderflow / HandlersLive) validated against recorded instruction traces "
